@@ -288,6 +288,8 @@ class PE:
                     if not self.match(q, x, env):
                         return False
                 return True
+            if isinstance(v, Sym):
+                return self.decide(("pat-slice", v, len(p["prefix"]) + len(p["suffix"])), p)
             raise Undecided("slice pattern on %r" % (v,))
         raise Undecided("pattern kind %s" % k)
 
@@ -324,7 +326,23 @@ class PE:
             return Sym("lit")
         return v
 
-    x_NamedConst = x_Lit
+    def x_NamedConst(self, e, env):
+        v = lit_value(e)
+        if isinstance(v, tuple) and v[0] == "char":
+            return v[1]
+        if v is None or (isinstance(v, str) and v.startswith("<indirect")):
+            # a constant the exporter could not decode (arrays of enums, ..): evaluate its initialiser
+            d = e.get("def")
+            f = self.F.fns.get(d)
+            if f is not None and f.get("thir"):
+                cache = getattr(self.F, "_pe_consts", None)
+                if cache is None:
+                    cache = self.F._pe_consts = {}
+                if d not in cache:
+                    cache[d] = PE(self.F).call_fn(d, [])
+                return cache[d]
+            return Sym(("const", d))
+        return v
 
     def x_Zst(self, e, env):
         fn = e.get("fn")
@@ -485,6 +503,17 @@ class PE:
             return wrap(r, e["ty"])
         if op in ("Lt", "Le", "Gt", "Ge"):
             return self.decide(("cmp", op, vkey(a), vkey(b)), e)
+        # canonical spelling of power-of-two arithmetic and of commutative operators (constant last):
+        # x & (2^k - 1) == x % 2^k, x >> k == x / 2^k, x << k == x * 2^k for unsigned x
+        if op in ("BitAnd", "BitOr", "BitXor", "Add", "Mul") and isinstance(a, int) and not isinstance(b, int):
+            a, b = b, a
+        if isinstance(b, int) and not isinstance(b, bool) and (e.get("ty") or "").startswith("u"):
+            if op == "BitAnd" and b > 0 and (b & (b + 1)) == 0:
+                op, b = "Rem", b + 1
+            elif op == "Shr":
+                op, b = "Div", 1 << b
+            elif op == "Shl":
+                op, b = "Mul", 1 << b
         return Sym(("bin", op, vkey(a), vkey(b)), e.get("ty"))
 
     def lin_binary(self, op, a, b, e):
@@ -613,6 +642,12 @@ class PE:
 
     def x_For(self, e, env):
         it = self.ev(e["iter"], env)
+        if isinstance(it, Adt) and it.adt == "seq-iter":
+            it = it.fields["0"]
+        if isinstance(it, Adt) and it.adt.startswith("core::ops::range::Range") and it.variant in ("Range", "RangeInclusive"):
+            lo, hi = it.fields.get("start"), it.fields.get("end")
+            if isinstance(lo, int) and isinstance(hi, int) and hi - lo <= 4096:
+                it = Tup(list(range(lo, hi + (1 if it.variant == "RangeInclusive" else 0))))
         if not isinstance(it, Tup):
             raise Undecided("for over %r" % (it,))
         for x in it.items:
@@ -680,6 +715,19 @@ class PE:
         res = fn.get("res") or d
         name = fn.get("name")
         args = [self.ev(a, env) for a in e["args"]]
+        if not d and e.get("fun") is not None:
+            # indirect call through a value: a function item / closure passed as an argument
+            fv = self.ev(e["fun"], env)
+            if isinstance(fv, tuple) and fv and fv[0] == "fn" and isinstance(fv[2], dict):
+                # re-enter as a direct call so that hooks and builtins see the real callee
+                e2 = dict(e)
+                e2["fn"] = fv[2]
+                e2.pop("fun", None)
+                e2["args"] = [{"k": "__val", "v": a} for a in args]
+                return self.x_Call(e2, env)
+            if isinstance(fv, tuple) and fv and fv[0] in ("closure", "fn"):
+                return self.apply(fv, args)
+            raise Undecided("indirect call through %r" % (fv,))
         if self.call_hook is not None:
             r = self.call_hook(d, res, args, e, env)
             if r is not None:
@@ -732,6 +780,22 @@ class PE:
                     raise Undecided("unwrap of %r" % (a0,))
                 if name == "ok_or":
                     return ok(inner) if v == "Some" else err(args[1])
+                if name == "unwrap_or" and len(args) == 2:
+                    return inner if v in ("Some", "Ok") else args[1]
+                if name == "unwrap_or_else" and len(args) == 2:
+                    return inner if v in ("Some", "Ok") else self.apply(args[1], [] if v == "None" else [inner])
+                if name in ("map_or", "map_or_else") and len(args) == 3:
+                    if v in ("Some", "Ok"):
+                        return self.apply(args[2], [inner])
+                    return args[1] if name == "map_or" else self.apply(args[1], [] if v == "None" else [inner])
+                if name in ("is_some_and", "is_ok_and") and len(args) == 2:
+                    return self.truth(self.apply(args[1], [inner]), e) if v in ("Some", "Ok") else False
+                if name == "filter" and len(args) == 2:
+                    return a0 if v == "Some" and self.truth(self.apply(args[1], [inner]), e) else NONE
+                if name == "or" and len(args) == 2:
+                    return a0 if v in ("Some", "Ok") else args[1]
+                if name == "err":
+                    return some(inner) if v == "Err" else NONE
                 if name == "ok":
                     return some(inner) if v == "Ok" else NONE
                 if name in ("map", "map_err", "ok_or_else", "and_then"):
@@ -807,17 +871,86 @@ class PE:
             for x in a0.items:
                 v = (v << 8) | x
             return v
+        r = self._seq_builtin(d, name, args, e)
+        if r is not NotImplemented:
+            return r
         if d.startswith("core::panicking"):
             self.events.append(("panic", "explicit"))
             raise Undecided("panic reached")
         return NotImplemented
 
+    def _seq_builtin(self, d, name, args, e):
+        """Slices / arrays / iterators over concrete sequences (Tup): the operations a table lookup is written with."""
+        a0 = args[0] if args else None
+        if isinstance(a0, Adt) and a0.adt == "seq-iter":
+            a0 = a0.fields["0"]
+            is_iter = True
+        else:
+            is_iter = False
+        if not isinstance(a0, Tup) or not (d.startswith("core::slice") or d.startswith("core::iter") or d.startswith("core::array")
+                                           or d.startswith("<") or "IntoIterator" in d or "Iterator" in d or d.startswith("alloc::vec")):
+            return NotImplemented
+        items = a0.items
+        if name in ("iter", "into_iter", "copied", "cloned", "as_slice", "by_ref") and len(args) == 1:
+            return Adt("seq-iter", "It", {"0": a0})
+        if name == "get" and len(args) == 2 and isinstance(args[1], int) and not is_iter:
+            return some(items[args[1]]) if 0 <= args[1] < len(items) else NONE
+        if name in ("first", "last") and len(args) == 1 and not is_iter:
+            return (some(items[0 if name == "first" else -1]) if items else NONE)
+        if name == "is_empty" and len(args) == 1:
+            return not items
+        if name in ("len", "count") and len(args) == 1:
+            return len(items)
+        if name == "contains" and len(args) == 2:
+            return any(vkey(x) == vkey(args[1]) for x in items)
+        if name in ("find", "position", "any", "all", "find_map", "map", "filter") and len(args) == 2:
+            out = []
+            for i, x in enumerate(items):
+                r = self.apply(args[1], [x])
+                if name == "map":
+                    out.append(r)
+                    continue
+                if name == "find_map":
+                    if isinstance(r, Adt) and r.variant == "Some":
+                        return r
+                    if isinstance(r, Adt) and r.variant == "None":
+                        continue
+                    raise Undecided("find_map closure result %r" % (r,))
+                t = self.truth(r, e)
+                if name == "find" and t:
+                    return some(x)
+                if name == "position" and t:
+                    return some(i)
+                if name == "any" and t:
+                    return True
+                if name == "all" and not t:
+                    return False
+                if name == "filter" and t:
+                    out.append(x)
+            if name in ("map", "filter"):
+                return Adt("seq-iter", "It", {"0": Tup(out)})
+            return {"find": NONE, "position": NONE, "find_map": NONE, "any": False, "all": True}[name]
+        if name in ("collect", "to_vec", "into_vec") and len(args) == 1:
+            return a0
+        if name == "nth" and len(args) == 2 and isinstance(args[1], int):
+            return some(items[args[1]]) if 0 <= args[1] < len(items) else NONE
+        if name == "next" and len(args) == 1:
+            return some(items[0]) if items else NONE
+        return NotImplemented
+
     def _from_dispatch(self, aty, target, a0):
+        cands = []
         for imp in self.F.impls:
             if (imp.get("trait") or "").endswith("convert::From") and imp["self_ty"] == target and (imp.get("trait_args") or [None])[0] == aty:
                 for it in imp["items"]:
                     if it["name"] == "from" and it["def"] in self.F.fns:
                         return self.call_fn(it["def"], [a0])
+            # inside a generic helper the types are parameters: dispatch on the value when exactly one crate impl converts it
+            if (imp.get("trait") or "").endswith("convert::From") and isinstance(a0, Adt) and (imp.get("trait_args") or [None])[0] == a0.adt \
+                    and ("::" not in target or "::" not in aty):
+                cands += [it["def"] for it in imp["items"] if it["name"] == "from" and it["def"] in self.F.fns]
+        if len(cands) == 1:
+            return self.call_fn(cands[0], [a0])
         return NotImplemented
 
     def apply(self, f, args):
